@@ -3179,6 +3179,92 @@ def fam_C17(rng, tier):
     return out
 
 
+def reconnect_matrix(prefix, tier='quick'):
+    """The SAME Context connected a second time, with everything a first connection can leave behind (round 10: seven of the
+    seventeen changes needed exactly this and nothing else found them): unacknowledged QoS 1 / QoS 2 publishes, a PUBREL awaiting
+    its PUBCOMP, an inbound QoS 2 exchange awaiting its PUBREL, a live subscription — ended by every cause, including a write
+    fault exactly at the acknowledgement of an inbound packet, with and without bytes of the old connection still buffered
+    (behind the last served packet / an unfinished packet), resumed (MARKDISC) or merely reconnected, the second CONNACK
+    announcing a smaller Receive Maximum than there are unfinished exchanges; then the broker's re-deliveries, the
+    acknowledgements of the re-sent packets, new traffic."""
+    out = []
+    long_filter = b'f/' + b'x' * 40
+    causes = ['eof', 'err', 'eof-part1', 'eof-part3', 'err-part2', 'sdisc', 'sdisc0-trail', 'sdisc-trail-part', 'udisc',
+              'dropfut', 'malformed-trail', 'stray-then-eof']
+    causes += ['werr%d' % k for k in ((70, 71, 73) if tier == 'quick' else range(58, 78))]
+    causes += ['werr2-%d' % k for k in ((71,) if tier == 'quick' else (70, 71, 72, 73))]
+    k = 0
+    for cause in causes:
+        for mark in (5, None):
+            for ps2 in ([], [(33, 1)], [(33, 2)], [(39, 200)]):
+                k += 1
+                if tier == 'quick' and ps2 and (k % 3) and not (cause == 'eof' and mark == 5):
+                    continue
+                cfg = 'werr=' + cause.split('werr')[1].split('-')[-1] if cause.startswith('werr') else None
+                s = Sess(f'{prefix}-reconn-{cause}-{mark}-{"_".join(str(v) for _, v in ps2) or "none"}', cfg)
+                cf = [('cid', b'c'), ('sei', 100)]
+                x, Sess.EXTRA_RNG = Sess.EXTRA_RNG, None
+                s.connect(cf)
+                op, sid = s.subscribed_stream(((long_filter, '2000'),))
+                inb = m.publish(b'a', b'first', 2, 7, 0, 0, [(11, sid)])
+                if cause.startswith('werr2-'):
+                    # the faulting write is the acknowledgement of the FIRST of two packets that came in one read
+                    s.feed(inb + m.publish(b'a', b'q1', 1, 9, 0, 0, [(11, sid)]))
+                elif cause.startswith('werr'):
+                    s.feed(inb)
+                else:
+                    oa, pa = s.publish(1, fields=[('p', b'one')])
+                    ob, pb = s.publish(2, fields=[('p', b'two')])
+                    s.feed(m.ack('pubrec', pb))
+                    oc, pc = s.publish(2, fields=[('p', b'three')])
+                    s.feed(inb)
+                    if cause == 'eof':
+                        s.add('FEEDEOF')
+                    elif cause == 'err':
+                        s.add('FEEDERR')
+                    elif cause.startswith('eof-part') or cause.startswith('err-part'):
+                        n = int(cause[-1])
+                        s.feed(m.publish(b'a', b'cut-off', 1, 9, 0, 0, [(11, sid)])[:n])
+                        s.add('FEEDEOF' if cause.startswith('eof') else 'FEEDERR')
+                    elif cause == 'sdisc':
+                        s.feed(m.disconnect(0x8b))
+                    elif cause == 'sdisc0-trail':
+                        s.feed(m.disconnect(0, form='empty') + m.pingresp())
+                    elif cause == 'sdisc-trail-part':
+                        s.feed(m.disconnect(0x8b) + m.publish(b'a', b'never', 1, 9, 0, 0, [(11, sid)])[:5])
+                    elif cause == 'udisc':
+                        s.disconnect()
+                    elif cause == 'dropfut':
+                        s.add('DROPFUT')
+                    elif cause == 'malformed-trail':
+                        s.feed(bytes([0x40, 0x01, 0x00]) + m.pingresp() + bytes([0x30]))
+                    elif cause == 'stray-then-eof':
+                        s.feed(m.auth(short=True))
+                        s.feed(m.connack(0, 0, []))
+                        s.add('FEEDEOF')
+                s.add('SNAP')
+                if mark is not None:
+                    s.add(f'MARKDISC {mark}')
+                s.connect(cf, connack_ps=ps2, sp=1)
+                Sess.EXTRA_RNG = x
+                # the broker never saw / may not have seen the PUBREC: it re-delivers; then releases; then a new message
+                s.feed(m.publish(b'a', b'first', 2, 7, 1, 0, [(11, sid)]))
+                s.feed(m.publish(b'a', b'first', 2, 7, 1, 0, [(11, sid)]))
+                s.feed(m.ack('pubrel', 7))
+                s.feed(m.publish(b'a', b'second', 2, 7, 0, 0, [(11, sid)]))
+                if not cause.startswith('werr'):
+                    s.feed(m.ack('puback', pa))
+                    s.feed(m.ack('pubcomp', pb))
+                    s.feed(m.ack('pubrec', pc))
+                    s.feed(m.ack('pubcomp', pc))
+                    s.publish(1, fields=[('p', b'new')])
+                    s.publish(1, fields=[('p', b'new2')])
+                s.add('SNAP')
+                s.feed(m.disconnect(0x8b))
+                out.append(s.script())
+    return out
+
+
 ACTOR = ['C05', 'C06', 'C07', 'C08', 'C09', 'C10', 'C12', 'C13', 'C14', 'C15', 'C17']
 
 
@@ -3350,7 +3436,7 @@ REACTIVE = ('C05', 'C06', 'C07', 'C08', 'C09', 'C10', 'C11', 'C12', 'C13', 'C15'
 
 def with_common(fam, prefix, **kw):
     def f(rng, tier):
-        out = fam(rng, tier) + fam_common(rng, tier, prefix, **kw)
+        out = fam(rng, tier) + fam_common(rng, tier, prefix, **kw) + reconnect_matrix(prefix, tier)
         if tier != 'quick' and prefix.upper() in ACTOR and os.environ.get('VERIF_UNION', '1') != '0':
             # thorough tier: additionally the quick families of every OTHER actor property, judged by this property's
             # oracle and the correspondence comparison (a change that breaks this property often needs a situation that
@@ -3378,8 +3464,8 @@ def with_extras(fam):
 
 
 FAMILIES = {
-    'C01': lambda rng, tier: fam_C01(rng, tier) + submission_order_scripts(rng, tier, 'c01'),
-    'C02': lambda rng, tier: fam_C02(rng, tier) + user_property_order_scripts('c02'), 'C03': fam_C03,
+    'C01': lambda rng, tier: fam_C01(rng, tier) + submission_order_scripts(rng, tier, 'c01') + reconnect_matrix('c01', tier),
+    'C02': lambda rng, tier: fam_C02(rng, tier) + user_property_order_scripts('c02') + reconnect_matrix('c02', tier), 'C03': fam_C03,
     'C04': with_common(lambda rng, tier: fam_C04(rng, tier) + burst_scripts('c04', tier) + prop_by_type_scripts('c04') + padded_subid_scripts('c04') + reason_sweep_scripts('c04', tier) + bad_utf8_scripts('c04') + bad_property_value_scripts('c04'), 'c04'), 'C05': with_common(fam_C05, 'c05'), 'C06': with_common(fam_C06, 'c06'),
     'C07': with_common(lambda rng, tier: fam_C07(rng, tier) + padded_subid_scripts('c07'), 'c07'), 'C08': with_common(fam_C08, 'c08'), 'C09': with_common(lambda rng, tier: fam_C09(rng, tier) + congruent_id_scripts('c09', tier), 'c09'),
     'C10': with_common(fam_C10, 'c10'), 'C11': with_common(fam_C11, 'c11', n_quick=15, n_thorough=300),
